@@ -15,9 +15,16 @@ def run(ctx):
         rule="(a) stateful secret-tree scripts (next / get at generation / replay of a used generation / window boundary "
              "gen+1023..gen+1025 / encode-decode of the tree), one row per request, compared with the model; (b) real groups of 2-4 "
              "members, 3-40 messages per sender (one run with 1030 from one sender), per-receiver random permutation with duplicates "
-             "and mid-stream reloads; non-trivial = every delivery and every request row",
+             "and mid-stream reloads; (c) members that encrypt their handshake: every sender interleaves application messages and encrypted proposals (psk, update, gce, "
+             "remove, custom, add), duplicated / permuted / partial delivery, reloads, then an encrypted commit by reference or after a cleared cache (k handshake generations "
+             "ahead of a receiver that saw none), late messages of the closed epoch; handshake gaps of 1024 / 1025 / 1026; every verdict compared with the exact ratchet model; "
+             "(d) every aead_seal of the run classified by its AAD (content / sender data / welcome) with the sender-data plaintext read at the provider: no content key, no "
+             "nonce-before-guard, no (epoch, leaf, ratchet, generation) twice, generations consecutive per ratchet, application and handshake keys disjoint; each real epoch's "
+             "secret tree replayed by the model (`st.new` / `st.get` rows from the epoch's encryption secret; `sdk` rows: sender-data key and nonce from the ciphertext sample); "
+             "non-trivial = every delivery and every request row",
         what_corr="ratchet / secret tree of the implementation answers a request differently from the model (accept/reject, generation or key bytes)",
-        what_oracle="message-key single-use violated on real groups (nonce/key reuse, replay accepted, in-window message refused, or out-of-window accepted)",
+        what_oracle="message-key single-use violated on real groups (a content key or ratchet nonce used twice, a generation handed out twice, application and handshake "
+                    "messages sharing a key, replay accepted, in-window message refused, out-of-window accepted, sealed key / nonce not the secret-tree value of its generation)",
         assumptions=["u32 generation overflow beyond 2^32-2048 messages per sender and epoch is excluded (hypothesis of permutation_complete; counterexample permutation_near_overflow kept in the Props file)",
                      "roll-back to a snapshot older than the last send is outside the claim (only the random reuse guard protects it)",
                      "key_injective assumes collision-free KDF (FreePrim), instantiated and proved for the free term algebra"],
